@@ -220,6 +220,105 @@ def cmdFlt (args : List String) : String :=
   | [i, f, b] => b2s (LiteralSpec.isNearestDouble i.toList f.toList b.toNat!)
   | _ => "bad-request"
 
+/-! ### text runtime (C12) -/
+open DDP.TextRT in
+def parseInt (cs : List Char) : Int × List Char :=
+  match cs with
+  | '-' :: r =>
+    let ds := r.takeWhile Char.isDigit
+    (-((String.ofList ds).toNat! : Int), r.dropWhile Char.isDigit)
+  | _ =>
+    let ds := cs.takeWhile Char.isDigit
+    (((String.ofList ds).toNat! : Int), cs.dropWhile Char.isDigit)
+
+def hexBytes (cs : List Char) : List Nat × List Char :=
+  let isHex (c : Char) : Bool := c.isDigit || ('a' ≤ c && c ≤ 'f')
+  let hs := cs.takeWhile isHex
+  let rec go : List Char → List Nat
+    | a :: b :: r => ((hexVal a).getD 0 * 16 + (hexVal b).getD 0) :: go r
+    | _ => []
+  (go hs, cs.dropWhile isHex)
+
+open DDP.TextRT in
+/-- text expressions: `L<hex> | C(T,T) | P<cp>(T) | A<cp>(T) | R<idx>,<cp>(T) | S<i1>,<i2>(T) | X<cp> | D(T)` -/
+partial def evalText : List Char → Option (Res Text × List Char)
+  | 'L' :: r => let (bs, r) := hexBytes r; some (.ok (fromConstant bs), r)
+  | 'C' :: '(' :: r => do
+    let (a, r) ← evalText r
+    let (b, r) ← evalText (r.drop 1)
+    let v := match a, b with
+      | .ok a, .ok b => Res.ok (concatSS a b)
+      | .ok _, e => e
+      | e, _ => e
+    some (v, r.drop 1)
+  | 'P' :: r => do
+    let (cp, r) := parseInt r
+    let (a, r) ← evalText (r.drop 1)
+    some ((match a with | .ok a => Res.ok (concatCS cp a) | e => e), r.drop 1)
+  | 'A' :: r => do
+    let (cp, r) := parseInt r
+    let (a, r) ← evalText (r.drop 1)
+    some ((match a with | .ok a => Res.ok (concatSC a cp) | e => e), r.drop 1)
+  | 'R' :: r => do
+    let (idx, r) := parseInt r
+    let (cp, r) := parseInt (r.drop 1)
+    let (a, r) ← evalText (r.drop 1)
+    some ((match a with | .ok a => replaceChar a cp idx | e => e), r.drop 1)
+  | 'S' :: r => do
+    let (i1, r) := parseInt r
+    let (i2, r) := parseInt (r.drop 1)
+    let (a, r) ← evalText (r.drop 1)
+    some ((match a with | .ok a => slice a i1 i2 | e => e), r.drop 1)
+  | 'X' :: r => let (cp, r) := parseInt r; some (.ok (charToString cp), r)
+  | 'D' :: '(' :: r => do
+    let (a, r) ← evalText r
+    some ((match a with | .ok a => Res.ok (deepCopy a) | e => e), r.drop 1)
+  | _ => none
+
+def hexOfNats (bs : List Nat) : String :=
+  String.ofList (bs.flatMap fun b => [hexDigit (b / 16), hexDigit (b % 16)])
+
+open DDP.TextRT in
+def showRes {α} (f : α → String) : Res α → String
+  | .ok a => "ok " ++ f a
+  | .err => "err"
+  | .overread => "overread"
+  | .hang => "hang"
+
+open DDP.TextRT in
+def cmdText (kind : String) (args : List String) : String :=
+  match kind, args with
+  | "show", [t] =>
+    match evalText t.toList with
+    | some (r, _) => showRes (fun t => s!"{hexOfNats (t.buf.take t.cap)} cap={t.cap}") r
+    | none => "bad-request"
+  | "len", [t] =>
+    match evalText t.toList with
+    | some (r, _) => showRes (fun t => toString (length t)) r
+    | none => "bad-request"
+  | "idx", [i, t] =>
+    match evalText t.toList with
+    | some (.ok t, _) => showRes toString (index t (parseInt i.toList).1)
+    | some (r, _) => showRes (fun (_ : Text) => "") r
+    | none => "bad-request"
+  | "eq", [a, b] =>
+    match evalText a.toList, evalText b.toList with
+    | some (.ok a, _), some (.ok b, _) => showRes (fun b => if b then "1" else "0") (equal a b)
+    | some (.ok _, _), some (r, _) => showRes (fun (_ : Text) => "") r
+    | some (r, _), _ => showRes (fun (_ : Text) => "") r
+    | _, _ => "bad-request"
+  | "iter", [t] =>
+    match evalText t.toList with
+    | some (.ok t, _) => showRes (fun cs => ",".intercalate (cs.map toString)) (iterateAll t)
+    | some (r, _) => showRes (fun (_ : Text) => "") r
+    | none => "bad-request"
+  | "abs", [t] =>
+    match evalText t.toList with
+    | some (.ok t, _) => "ok " ++ ",".intercalate ((abs t).map toString)
+    | some (r, _) => showRes (fun (_ : Text) => "") r
+    | none => "bad-request"
+  | _, _ => "bad-request"
+
 def dispatch (line : String) : String :=
   match (line.splitOn " ").filter (· ≠ "") with
   | "scan" :: args => cmdScan args
@@ -227,6 +326,12 @@ def dispatch (line : String) : String :=
   | "trie" :: args => cmdTrie args
   | "types" :: args => cmdTypes args
   | "lit" :: args => cmdLit args
+  | "show" :: args => cmdText "show" args
+  | "len" :: args => cmdText "len" args
+  | "idx" :: args => cmdText "idx" args
+  | "eq" :: args => cmdText "eq" args
+  | "iter" :: args => cmdText "iter" args
+  | "abs" :: args => cmdText "abs" args
   | "flt" :: args => cmdFlt args
   | "typos" :: args => cmdTypos args
   | _ => "bad-request"
